@@ -251,7 +251,7 @@ func (a *NodeActor) tryJoinSeeds(ctx vivid.ActorContext, seeds []string) error {
 		// 重启分代：若视图中已有本节点（例如上次离开后重启再入群），采用更高分代以便他节点采纳新实例
 		if prev := a.clusterView.Members[a.nodeState.ID]; prev != nil && prev.Generation >= a.nodeState.Generation {
 			a.nodeState.Generation = prev.Generation + 1
-			a.nodeState.Timestamp = time.Now().UnixNano()
+			a.nodeState.Timestamp = wallNow().UnixNano()
 			if prev.LogicalClock != 0 {
 				a.nodeState.LogicalClock = prev.LogicalClock + 1
 			} else {
@@ -404,7 +404,7 @@ func (a *NodeActor) handleGossip(ctx vivid.ActorContext, m *GossipMessage) {
 				a.lastVersionVectorByAddr[norm] = m.View.VersionVector.Clone()
 			}
 			if member := a.clusterView.MemberByAddress(addr); member != nil {
-				member.LastSeen = time.Now().UnixNano()
+				member.LastSeen = wallNow().UnixNano()
 				if member.Status == MemberStatusSuspect {
 					member.Status = MemberStatusUp
 				}
@@ -473,7 +473,7 @@ func (a *NodeActor) dropStaleUnknownMembers(view *ClusterView, sender vivid.Acto
 	if sender != nil {
 		senderAddr = sender.GetAddress()
 	}
-	now := time.Now()
+	now := wallNow()
 	for id, member := range view.Members {
 		if member == nil || member.Address == a.nodeState.Address || member.Address == senderAddr {
 			continue
@@ -545,7 +545,7 @@ func (a *NodeActor) runFailureDetection(ctx vivid.ActorContext) {
 	if a.clusterView == nil {
 		return
 	}
-	now := time.Now()
+	now := wallNow()
 	toSuspect, toRemove := a.failureDetector.RunDetection(a.clusterView, a.nodeState.Address, a.nodeState.Datacenter(), now)
 	for _, id := range toSuspect {
 		if m := a.clusterView.Members[id]; m != nil {
